@@ -58,7 +58,7 @@ def run_shapes(repo, grammar):
 
 def check_shapes(chk, repo, grammar, rule, only_class=None):
     I, esc = run_shapes(repo, grammar)
-    chk.need(rule, len(I.analysed), 120, 'reader method x shape instances')
+    chk.need(rule, len(I.analysed), 80, 'reader method x shape instances')
     chk.extra['reader_shape_instances'] = len(I.analysed)
     bykind = {}
     for x in esc:
